@@ -417,6 +417,53 @@ pub fn gen_c14(out: &mut dyn Write, seed: u64, thorough: bool) {
             }
         }
     }
+    // 2b. the string API through the builder with options (mode subsets, symbol lists, macro flag): the same
+    // ECI choice, the caller's options untouched (compared with encode_eci on the same builder), round trip
+    {
+        let n = if thorough { 60000 } else { 6000 };
+        let mut n_opt = 0usize;
+        for _ in 0..n {
+            let len = 1 + rng.below(24);
+            let class = rng.below(4);
+            let st: String = (0..len)
+                .map(|_| match class {
+                    0 => char::from_u32(*rng.pick(&[0x20 + rng.0 as u32 % 0x5F, 0xA0 + (rng.0 >> 8) as u32 % 0x60])).unwrap(),
+                    1 => char::from_u32(0x4E00 + rng.below(0x5000) as u32).unwrap(),
+                    2 => if rng.chance(1, 3) { char::from_u32(0x3040 + rng.below(0xC0) as u32).unwrap() } else { (b'a' + rng.below(26) as u8) as char },
+                    _ => rand_char(&mut rng),
+                })
+                .collect();
+            let modes = if rng.chance(1, 4) { 63u8 } else { 1 + rng.below(63) as u8 };
+            let all = rng.chance(1, 2);
+            let macros = rng.chance(1, 2);
+            let mk = move || {
+                datamatrix::DataMatrixBuilder::new()
+                    .with_encodation_types(modes_from_bits(modes))
+                    .with_symbol_list(if all { SymbolList::all() } else { SymbolList::default() })
+                    .with_macros(macros)
+            };
+            let sig = |r: &Result<Result<datamatrix::DataMatrix, datamatrix::data::DataEncodingError>, String>| match r {
+                Ok(Ok(dm)) => format!("ok:{}:{}", size_index(dm.size), hex(dm.data_codewords())),
+                Ok(Err(e)) => format!("err:{:?}", e),
+                Err(_) => "panic".to_string(),
+            };
+            let s2 = st.clone();
+            let got = guarded(move || mk().encode_str(&s2));
+            let s3 = st.clone();
+            let exp = guarded(move || match data::utf8_to_latin1(&s3) {
+                Some(l1) => mk().encode_eci(&l1, None),
+                None => mk().encode_eci(s3.as_bytes(), Some(26)),
+            });
+            n_opt += 1;
+            writeln!(out, "O eq {} {} => ok", sig(&exp), sig(&got)).unwrap();
+            if let Ok(Ok(dm)) = &got {
+                let cw = dm.data_codewords().to_vec();
+                writeln!(out, "O strchk {} {} => ok", hex(st.as_bytes()), hex(&cw)).unwrap();
+                writeln!(out, "O eq ok:{} {} => ok", hex(st.as_bytes()), dstr(&cw)).unwrap();
+            }
+        }
+        writeln!(out, "# builder_option_strings {}", n_opt).unwrap();
+    }
     // 3. the Latin-1 helpers on random byte strings / strings
     for _ in 0..(if thorough { 50000 } else { 5000 }) {
         let len = rng.below(12);
